@@ -150,6 +150,12 @@ class PureAsyncDecoratorBinder(qcore.decorators.DecoratorBinder):
     def is_pure_async_fn(self):
         return True
 
+    def asyncio(self, *args, **kwargs) -> Coroutine[Any, Any, Any]:
+        if self.instance is None:
+            return self.decorator.asyncio(*args, **kwargs)
+        else:
+            return self.decorator.asyncio(self.instance, *args, **kwargs)
+
 
 class PureAsyncDecorator(qcore.decorators.DecoratorBase):
     binder_cls = PureAsyncDecoratorBinder
